@@ -65,7 +65,7 @@ fn ks(rng: &mut Rng, cap: u64) -> Vec<u64> {
 }
 
 /// roots with a mate in one (and the same generator also yields plenty without one)
-fn mating_positions(rng: &mut Rng, n: usize, out: &mut Vec<Tagged>) {
+pub fn mating_positions(rng: &mut Rng, n: usize, out: &mut Vec<Tagged>) {
     let mut tries = 0;
     let mut made = 0;
     while made < n && tries < n * 300 {
@@ -122,7 +122,7 @@ fn mating_positions(rng: &mut Rng, n: usize, out: &mut Vec<Tagged>) {
 /// mate-in-one positions built backwards: a checkmated position with little material (minor pieces
 /// included), then the mating move retracted - as a capture of any kind of man, or quietly with the
 /// half-move clock anywhere up to 99
-fn retro_mates(rng: &mut Rng, n: usize, out: &mut Vec<Tagged>) {
+pub fn retro_mates(rng: &mut Rng, n: usize, out: &mut Vec<Tagged>) {
     let mut tries = 0;
     let mut made = 0;
     while made < n && tries < n * 20000 {
